@@ -133,6 +133,32 @@ inline bool targetRule(const MValue& pre, const MValue& post, const Op& op, cons
       }
       if (!mequal(pre, post)) { why = "append on a non-array changed the value"; return false; }
       return true;
+    case COPY_ARRAY:
+      // element-wise: the old elements stay, what was appended is (recursively) a sub-sequence of the intended elements
+      if (pre.kind == MValue::Null || pre.kind == MValue::Arr) {
+        size_t n0 = pre.kind == MValue::Arr ? pre.a.size() : 0;
+        if (pre.kind == MValue::Null && post.kind == MValue::Null) return true;
+        if (post.kind != MValue::Arr || post.a.size() < n0) { why = "copyArray shrank or re-typed its destination: " + mtext(post).substr(0, 80); return false; }
+        for (size_t i = 0; i < n0; i++) if (!mequal(pre.a[i], post.a[i])) { why = "element " + std::to_string(i) + " changed during copyArray"; return false; }
+        std::function<bool(const MValue&, const MValue&)> partOf = [&](const MValue& got, const MValue& want) {
+          if (got.kind == MValue::Null) return true;  // an element whose value could not be stored
+          if (want.kind != MValue::Arr) return mequal(got, want);
+          if (got.kind != MValue::Arr) return false;
+          size_t j = 0;
+          for (auto& g : got.a) {
+            while (j < want.a.size() && !partOf(g, want.a[j])) j++;
+            if (j == want.a.size()) return false;
+            j++;
+          }
+          return true;
+        };
+        MValue appended = MValue::array();
+        for (size_t i = n0; i < post.a.size(); i++) appended.a.push_back(post.a[i]);
+        if (!partOf(appended, intended)) { why = "copyArray appended something else than (part of) its source: " + mtext(appended).substr(0, 80); return false; }
+        return true;
+      }
+      if (!mequal(pre, post)) { why = "copyArray on a non-array changed the value"; return false; }
+      return true;
     case SET_INDEX:
       if (pre.kind == MValue::Null) return post.kind == MValue::Null || post.kind == MValue::Arr;
       if (pre.kind == MValue::Arr) {
@@ -187,7 +213,9 @@ inline bool frameWalk(const MValue& pre, const MValue& post, const Path& p, size
   return true;
 }
 
-inline bool docLevel(Code c) {
+inline bool docLevel(const Op& o) {
+  if (o.code == COPY_ARRAY && o.b == 1) return true;  // copyArray(src, JsonDocument&) starts with to<JsonArray>()
+  Code c = o.code;
   return c == DOC_CLEAR || c == DOC_COPY_ASSIGN || c == DOC_MOVE_ASSIGN || c == DOC_SWAP || c == DOC_SET_DOC || c == DOC_FROM_VARIANT || c == SHRINK;
 }
 
@@ -202,8 +230,10 @@ struct FaultOutcome {
 // With `op2`: the plan stays armed after `op1` (a fail-from-k schedule spans operations) and `op2` is the operation that is
 // judged - the second failing operation of one document, whose state after the first failure is read back from the real
 // documents. *afterOp1 receives that state (for enumerating the second operations).
+// `recovered`: `op2` runs with the allocator working again (the failure of `op1` was transient); then only the clauses that do
+// not depend on what `op2` returns are judged: well-formedness, ledger, inspector, clear(), reuse, destruction.
 inline FaultOutcome runScenario(const History& prefix, const Op& op1, const std::vector<uint64_t>& failAt, uint64_t failFrom,
-                                const Op* op2 = nullptr, World* afterOp1 = nullptr) {
+                                const Op* op2 = nullptr, World* afterOp1 = nullptr, bool recovered = false) {
   FaultOutcome F;
   Op op = op1;
   World W;
@@ -233,7 +263,18 @@ inline FaultOutcome runScenario(const History& prefix, const Op& op1, const std:
     plan.armed = was;
     if (afterOp1) *afterOp1 = W;
   }
-  if (op2) {
+  if (op2 && recovered) {
+    if (plan.delivered == 0) return F;
+    plan.armed = false;  // the allocator works again
+    R.A[0].takeErrors();
+    R.A[1].takeErrors();
+    pre = W;
+    op = *op2;
+    E = modelApply(W, op);
+    ret = realApply(R, op);
+    F.calls = plan.calls;
+    F.delivered = true;
+  } else if (op2) {
     if (plan.delivered == 0) return F;  // the first operation met no fault: not a two-failure history
     uint64_t d0 = plan.delivered;
     R.A[0].takeErrors();
@@ -254,14 +295,14 @@ inline FaultOutcome runScenario(const History& prefix, const Op& op1, const std:
     if (!F.delivered) return F;
   }
   // ---- reporting rule
-  bool someOverflowed = false;
+  bool someOverflowed = recovered;
   for (int a = 0; a < 2; a++) {
     if (!R.A[a].faultsDelivered) continue;
     for (int d = 0; d < 2; d++)
       if (R.D[d]->allocator() == &R.A[a] && R.D[d]->overflowed()) someOverflowed = true;
   }
   if (!someOverflowed) F.viol("not-reported", "an allocation failed but overflowed() is false on every document of that allocator (returned " + ret + ")");
-  if ((E.ret == "T" || E.ret == "B" || E.ret == "Ok") && (ret == "T" || ret == "B" || ret == "Ok"))
+  if (!recovered && (E.ret == "T" || E.ret == "B" || E.ret == "Ok") && (ret == "T" || ret == "B" || ret == "Ok"))
     F.viol("not-reported", "an allocation failed but the call reported success (" + ret + ")");
   // ---- well-formedness + frame condition
   std::string lerr = R.A[0].takeErrors() + R.A[1].takeErrors();
@@ -276,15 +317,24 @@ inline FaultOutcome runScenario(const History& prefix, const Op& op1, const std:
     if (bang != std::string::npos) F.viol("malformed", "D" + std::to_string(d) + " " + obs.substr(bang, 40));
   }
   bool moves = op.code == DOC_MOVE_ASSIGN || op.code == DOC_SWAP;
-  if (!moves) {
+  if (!moves && !recovered) {
     int other = 1 - op.doc;
     if (!mequal(pre.M[other], post[other])) F.viol("frame", "the other document changed: " + mtext(post[other]).substr(0, 80) + " was " + mtext(pre.M[other]).substr(0, 80));
-    if (!docLevel(op.code)) {
+    if (!docLevel(op)) {
       std::string why;
       MValue intended = op.code == ADD_SCALAR ? scalarModel(op.a) : op.code == ADD_ARRAY ? MValue::array() : op.code == ADD_OBJECT ? MValue::object() : MValue::null();
       if (op.code == ADD_VARIANT) {
         MValue* src = at(pre.M[op.doc2], op.path2);
         if (src) intended = *src;
+      }
+      if (op.code == COPY_ARRAY) {
+        World tmp;
+        Op whole = op;
+        whole.doc = 0;
+        whole.path.clear();
+        whole.b = op.b == 2 ? 2 : 0;
+        modelApply(tmp, whole);
+        intended = tmp.M[0];
       }
       if (!frameWalk(pre.M[op.doc], post[op.doc], op.path, 0, op, intended, why))
         F.viol("frame", why + " | before " + mtext(pre.M[op.doc]).substr(0, 100) + " after " + mtext(post[op.doc]).substr(0, 100));
@@ -335,7 +385,7 @@ inline void runFault(Ctx& C) {
   size_t nBfs = states.size();
   for (auto& h : curatedPrefixes()) states.push_back(h);
   std::string cfg = cfgName();
-  uint64_t scenarios = 0, plans = 0, undelivered = 0, second = 0;
+  uint64_t scenarios = 0, plans = 0, undelivered = 0, second = 0, recoveredOps = 0;
   const bool twoOps = !C.flag("single-op");
   for (size_t si = 0; si < states.size(); si++) {
     if (C.expired()) break;
@@ -378,6 +428,38 @@ inline void runFault(Ctx& C) {
       };
       for (uint64_t k = 1; k <= N; k++) exec({k}, 0);
       for (uint64_t k = 1; k < N; k++) exec({}, k);
+      // a transient failure: allocation k fails, then the allocator works again and every enabled operation (including
+      // shrinkToFit, deserialization and the document-level ones) follows WITHOUT a clear() in between; whatever that
+      // operation returns, the documents stay well-formed and every block is still returned on clear() and destruction
+      if (twoOps) {
+        for (uint64_t k = 1; k <= N; k++) {
+          World W1;
+          FaultOutcome F1 = runScenario(h, op, {k}, 0, nullptr, &W1);
+          if (!F1.delivered) continue;
+          std::vector<Op> ops2;
+          Alphabet ab2;
+          ab2.full = false;
+          enabledOps(W1, ab2, ops2);
+          for (auto& o2 : ops2) {
+            if (risky(o2) || o2.code == HANDLE_TAKE) continue;
+            if (o2.code == SET_SCALAR && o2.a != 2 && o2.a != 7 && o2.a != 12) continue;  // one value of each storage class is enough here
+            plans++;
+            C.evaluations++;
+            FaultOutcome F = runScenario(h, op, {k}, 0, &o2, nullptr, true);
+            if (!F.delivered) { undelivered++; continue; }
+            std::string k2 = key + "|fault=" + std::to_string(k) + "|recovered-then=" + opText(o2);
+            C.nontrivial(fnv1a(k2));
+            recoveredOps++;
+            C.outcome(std::string("recovered-then-") + kCodeName[o2.code] + (F.problems.empty() ? ":ok" : ":violation"));
+            size_t i = 0;
+            while (i < F.problems.size()) {
+              size_t j = F.problems.find('\n', i), t = F.problems.find('\t', i);
+              C.failKey(k2, F.problems.substr(i, t - i), F.problems.substr(t + 1, j - t - 1));
+              i = j + 1;
+            }
+          }
+        }
+      }
       // two failing operations in a row: the allocator keeps failing from position k on, and every operation enabled in the
       // state that the first failure left behind is the second one
       if (twoOps) {
@@ -390,7 +472,7 @@ inline void runFault(Ctx& C) {
           ab2.full = false;
           enabledOps(W1, ab2, ops2);
           for (auto& o2 : ops2) {
-            if (risky(o2) || o2.code == HANDLE_TAKE || docLevel(o2.code) || o2.code == DESERIALIZE) continue;
+            if (risky(o2) || o2.code == HANDLE_TAKE || docLevel(o2) || o2.code == DESERIALIZE) continue;
             plans++;
             C.evaluations++;
             FaultOutcome F = runScenario(h, op, {}, k, &o2);
@@ -418,11 +500,13 @@ inline void runFault(Ctx& C) {
   C.metrics["fault_plans_executed"] += double(plans);
   C.metrics["fault_plans_not_reached"] += double(undelivered);
   C.metrics["second_failing_operations_judged"] += double(second);
+  C.metrics["operations_after_a_transient_failure_judged"] += double(recoveredOps);
   if (C.shard == 0) C.metrics["scenario_prefix_states"] += double(states.size());
   faultInputs(C, C.thorough());
   C.bound("prefixes: all distinct states of depth <= " + std::to_string(D) + " (" + (AB.full ? "full" : "reduced") + " alphabet) + 5 curated longer ones; probes: every enabled "
           "operation; plans: every single position, every fail-from-k, every pair when N <= 16; "
-          "two failing operations in a row: every fail-from-k schedule continued into every enabled second operation; geometry " + cfg);
+          "two failing operations in a row: every fail-from-k schedule continued into every enabled second operation; transient failures: every single-position plan "
+          "followed, with the allocator working again and without clear(), by every enabled operation; geometry " + cfg);
 }
 
 
